@@ -227,3 +227,50 @@ Proof.
     apply gen_closed_spec; [exact Hg| destruct q; auto |].
     intros v Hv. apply in_map_iff in Hv. destruct Hv as [d [<- _]]. apply IH.
 Qed.
+
+(* evaluation stays within the value set: only the three value conditions are needed *)
+Lemma eval_vals3 S M : closed_ok (s_t S) = true -> gen_closed S = true ->
+  (forall w n, In (m_atom M w n) (t_vals (s_t S))) ->
+  (forall w p ds, In (m_pred M w p ds) (t_vals (s_t S))) ->
+  (forall w s, In (m_opq M w s) (t_vals (s_t S))) ->
+  forall s w env, In (eval S M w env s) (t_vals (s_t S)).
+Proof.
+  intros Hc Hg Ha Hp Ho.
+  assert (Hu : forall o a, In a (t_vals (s_t S)) -> In (t_un (s_t S) o a) (t_vals (s_t S))).
+  { unfold closed_ok in Hc. rewrite forallb_forall in Hc. intros o a Hin. specialize (Hc a Hin).
+    apply andb_true_iff in Hc. destruct Hc as [Hc _]. rewrite forallb_forall in Hc.
+    apply vmem_In. apply Hc. apply all_uops_complete. }
+  assert (Hb : forall o a b, In a (t_vals (s_t S)) -> In b (t_vals (s_t S)) ->
+                             In (t_bin (s_t S) o a b) (t_vals (s_t S))).
+  { unfold closed_ok in Hc. rewrite forallb_forall in Hc. intros o a b Hin Hinb. specialize (Hc a Hin).
+    apply andb_true_iff in Hc. destruct Hc as [_ Hc]. rewrite forallb_forall in Hc.
+    specialize (Hc b Hinb). rewrite forallb_forall in Hc. apply vmem_In. apply Hc. apply all_bops_complete. }
+  induction s as [n|p ts|o a IH|o a IHa b IHb|o a IH|q x a IH]; intros w env; simpl; auto.
+  - destruct (s_modal S); [|apply Ho].
+    apply gen_closed_spec; [exact Hg| destruct o; auto |].
+    intros v Hv. apply in_map_iff in Hv. destruct Hv as [u [<- _]]. apply IH.
+  - destruct (s_quant S); [|apply Ho].
+    apply gen_closed_spec; [exact Hg| destruct q; auto |].
+    intros v Hv. apply in_map_iff in Hv. destruct Hv as [d [<- _]]. apply IH.
+Qed.
+
+(* well-formed quantification: no variable is re-bound inside its own scope *)
+Fixpoint wfq (s : sent) : bool :=
+  match s with
+  | Atom _ | Pred _ _ => true
+  | Un _ a | Mod _ a => wfq a
+  | Bin _ a b => wfq a && wfq b
+  | Qu _ x a => nobind x a && wfq a
+  end.
+
+(* closed terms / sentences *)
+Definition term_closed (bound : list nat) (t : term) : bool :=
+  match t with TC _ => true | TV x => existsb (Nat.eqb x) bound end.
+Fixpoint closedb (bound : list nat) (s : sent) : bool :=
+  match s with
+  | Atom _ => true
+  | Pred _ ts => forallb (term_closed bound) ts
+  | Un _ a | Mod _ a => closedb bound a
+  | Bin _ a b => closedb bound a && closedb bound b
+  | Qu _ x a => closedb (x :: bound) a
+  end.
